@@ -529,6 +529,21 @@ func (q *checker) bcheckAssignment(lhs *a.Expr, op t.ID, rhs *a.Expr) error {
 		return nil
 	}
 
+	// A store to one element of an array or slice can change the value of any
+	// other element expression over the same storage: a fact about "x[j]"
+	// does not survive "x[i] = v" (the checker does not track whether i and j
+	// differ), nor a store through a slice, which may alias x.
+	if lhs.Operator() == a.ExprOperatorIndex {
+		if err := q.facts.update(func(x *a.Expr) (*a.Expr, error) {
+			if mentionsElementOf(x, containerRoot(lhs)) {
+				return nil, nil
+			}
+			return x, nil
+		}); err != nil {
+			return err
+		}
+	}
+
 	if op == t.IDEq {
 		if err := q.facts.dropAnyFactsMentioning(lhs); err != nil {
 			return err
@@ -1942,4 +1957,35 @@ func (q *checker) bcheckTypeExpr1(typ *a.TypeExpr) (bounds, error) {
 	}
 
 	return b, nil
+}
+
+// containerRoot strips index and slice operators: the root of "this.a[i][j]"
+// and of "this.a[i ..]" is "this.a".
+func containerRoot(n *a.Expr) *a.Expr {
+	for (n.Operator() == a.ExprOperatorIndex) || (n.Operator() == a.ExprOperatorSlice) {
+		n = n.LHS().AsExpr()
+	}
+	return n
+}
+
+// mentionsElementOf returns whether x contains an index expression whose
+// storage can overlap root's: it has the same root, or one of the two roots
+// is a slice (which can alias any array or slice).
+func mentionsElementOf(x *a.Expr, root *a.Expr) bool {
+	found := false
+	x.AsNode().Walk(func(o *a.Node) error {
+		if found || (o.Kind() != a.KExpr) {
+			return nil
+		}
+		if o := o.AsExpr(); o.Operator() == a.ExprOperatorIndex {
+			r := containerRoot(o)
+			if r.Eq(root) ||
+				((r.MType() != nil) && r.MType().IsEitherSliceType()) ||
+				((root.MType() != nil) && root.MType().IsEitherSliceType()) {
+				found = true
+			}
+		}
+		return nil
+	})
+	return found
 }
